@@ -34,8 +34,8 @@ PROPS = {
     "C04": dict(extra=["enum"], profiles=["core", "alloc"], level="proof"),
     "C05": dict(extra=["enum"], profiles=["core", "alloc"], level="proof"),
     "C06": dict(profiles=["alloc", "core"], level="proof", extra=["stamps", "genwrap"]),
-    "C07": dict(profiles=["alloc", "core"], level="proof"),
-    "C08": dict(profiles=["alloc", "core", "value"], level="proof"),
+    "C07": dict(extra=["enum"], profiles=["alloc", "core"], level="proof"),
+    "C08": dict(extra=["enum"], profiles=["alloc", "core", "value"], level="proof"),
     "C09": dict(profiles=["iters"], level="proof", props=["C09", "C09src"]),
     "C10": dict(profiles=["iters"], level="proof", props=["C10", "C09src"]),
     "C11": dict(profiles=["core", "alloc"], level="proof", extra=["selfcheck", "genwrap"]),
